@@ -69,6 +69,9 @@ fn blob_roundtrip<const N: usize, const ZSTD: bool>() {
 #[kani::proof]
 #[kani::unwind(44)]
 #[kani::stub(std::backtrace::Backtrace::capture, crate::error::verif_harness::stub_backtrace_capture)]
+#[kani::stub(crate::error::RusticError::new, crate::error::verif_harness::stub_rustic_new)]
+#[kani::stub(crate::error::RusticError::attach_context, crate::error::verif_harness::stub_attach_context)]
+#[kani::stub(crate::error::RusticError::attach_source, crate::error::verif_harness::stub_attach_source)]
 #[kani::stub(alloc::fmt::format, crate::error::verif_harness::stub_format)]
 #[kani::stub(zstd::stream::encode_all, crate::error::verif_harness::stub_encode_all)]
 #[kani::stub(zstd::stream::decode_all, crate::error::verif_harness::stub_decode_all)]
@@ -87,6 +90,9 @@ pub(crate) fn c01_blob_framing_roundtrip_3() { blob_roundtrip::<3, false>(); }
 #[kani::proof]
 #[kani::unwind(44)]
 #[kani::stub(std::backtrace::Backtrace::capture, crate::error::verif_harness::stub_backtrace_capture)]
+#[kani::stub(crate::error::RusticError::new, crate::error::verif_harness::stub_rustic_new)]
+#[kani::stub(crate::error::RusticError::attach_context, crate::error::verif_harness::stub_attach_context)]
+#[kani::stub(crate::error::RusticError::attach_source, crate::error::verif_harness::stub_attach_source)]
 #[kani::stub(alloc::fmt::format, crate::error::verif_harness::stub_format)]
 #[kani::stub(zstd::stream::encode_all, crate::error::verif_harness::stub_encode_all)]
 #[kani::stub(zstd::stream::decode_all, crate::error::verif_harness::stub_decode_all)]
@@ -105,6 +111,9 @@ pub(crate) fn c01_blob_framing_roundtrip_3_zstd() { blob_roundtrip::<3, true>();
 #[kani::proof]
 #[kani::unwind(44)]
 #[kani::stub(std::backtrace::Backtrace::capture, crate::error::verif_harness::stub_backtrace_capture)]
+#[kani::stub(crate::error::RusticError::new, crate::error::verif_harness::stub_rustic_new)]
+#[kani::stub(crate::error::RusticError::attach_context, crate::error::verif_harness::stub_attach_context)]
+#[kani::stub(crate::error::RusticError::attach_source, crate::error::verif_harness::stub_attach_source)]
 #[kani::stub(alloc::fmt::format, crate::error::verif_harness::stub_format)]
 #[kani::stub(zstd::stream::encode_all, crate::error::verif_harness::stub_encode_all)]
 #[kani::stub(zstd::stream::decode_all, crate::error::verif_harness::stub_decode_all)]
@@ -122,6 +131,9 @@ pub(crate) fn c01_blob_framing_roundtrip_1() { blob_roundtrip::<1, true>(); }
 #[kani::proof]
 #[kani::unwind(44)]
 #[kani::stub(std::backtrace::Backtrace::capture, crate::error::verif_harness::stub_backtrace_capture)]
+#[kani::stub(crate::error::RusticError::new, crate::error::verif_harness::stub_rustic_new)]
+#[kani::stub(crate::error::RusticError::attach_context, crate::error::verif_harness::stub_attach_context)]
+#[kani::stub(crate::error::RusticError::attach_source, crate::error::verif_harness::stub_attach_source)]
 #[kani::stub(alloc::fmt::format, crate::error::verif_harness::stub_format)]
 #[kani::stub(zstd::stream::copy_encode, crate::error::verif_harness::stub_copy_encode)]
 #[kani::stub(zstd::stream::decode_all, crate::error::verif_harness::stub_decode_all)]
@@ -140,6 +152,9 @@ pub(crate) fn c01_file_framing_roundtrip() { file_roundtrip::<false>(); }
 #[kani::proof]
 #[kani::unwind(44)]
 #[kani::stub(std::backtrace::Backtrace::capture, crate::error::verif_harness::stub_backtrace_capture)]
+#[kani::stub(crate::error::RusticError::new, crate::error::verif_harness::stub_rustic_new)]
+#[kani::stub(crate::error::RusticError::attach_context, crate::error::verif_harness::stub_attach_context)]
+#[kani::stub(crate::error::RusticError::attach_source, crate::error::verif_harness::stub_attach_source)]
 #[kani::stub(alloc::fmt::format, crate::error::verif_harness::stub_format)]
 #[kani::stub(zstd::stream::copy_encode, crate::error::verif_harness::stub_copy_encode)]
 #[kani::stub(zstd::stream::decode_all, crate::error::verif_harness::stub_decode_all)]
@@ -194,6 +209,9 @@ fn file_roundtrip<const ZSTD: bool>() {
 #[kani::proof]
 #[kani::unwind(44)]
 #[kani::stub(std::backtrace::Backtrace::capture, crate::error::verif_harness::stub_backtrace_capture)]
+#[kani::stub(crate::error::RusticError::new, crate::error::verif_harness::stub_rustic_new)]
+#[kani::stub(crate::error::RusticError::attach_context, crate::error::verif_harness::stub_attach_context)]
+#[kani::stub(crate::error::RusticError::attach_source, crate::error::verif_harness::stub_attach_source)]
 #[kani::stub(alloc::fmt::format, crate::error::verif_harness::stub_format)]
 #[kani::stub(zstd::stream::encode_all, crate::error::verif_harness::stub_encode_all)]
 #[kani::stub(zstd::stream::decode_all, crate::error::verif_harness::stub_decode_all)]
@@ -211,6 +229,9 @@ pub(crate) fn c04_tampered_blob_is_rejected() { tamper_check::<false>(); }
 #[kani::proof]
 #[kani::unwind(44)]
 #[kani::stub(std::backtrace::Backtrace::capture, crate::error::verif_harness::stub_backtrace_capture)]
+#[kani::stub(crate::error::RusticError::new, crate::error::verif_harness::stub_rustic_new)]
+#[kani::stub(crate::error::RusticError::attach_context, crate::error::verif_harness::stub_attach_context)]
+#[kani::stub(crate::error::RusticError::attach_source, crate::error::verif_harness::stub_attach_source)]
 #[kani::stub(alloc::fmt::format, crate::error::verif_harness::stub_format)]
 #[kani::stub(zstd::stream::encode_all, crate::error::verif_harness::stub_encode_all)]
 #[kani::stub(zstd::stream::decode_all, crate::error::verif_harness::stub_decode_all)]
